@@ -104,6 +104,17 @@ def run(a, res):
         hs = list(c["rsp_headers"])
         if c["cache"]:
             hs.append(("Cache-Control", "max-age=600"))
+            # cache-relevant fields that squid itself looks up or replaces when it answers from the cache, nominated as
+            # hop-by-hop by the origin (not judged by value -- squid may emit its own Age/Date/Expires --, they drive the
+            # header bookkeeping on the hit path)
+            r2 = random.Random(f"C04:hit:{c['seed']}:{c['n']}")
+            if r2.random() < 0.5:
+                import time as _t
+                extra = r2.sample([("Age", "7"), ("Expires", httpref.http_date(_t.time() + 3600) if hasattr(httpref, "http_date") else "Thu, 01 Jan 2099 00:00:00 GMT"),
+                                   ("Last-Modified", "Mon, 01 Jan 2024 00:00:00 GMT"), ("ETag", '"c04"'), ("Warning", '199 - "x"')], r2.randrange(1, 4))
+                hs += extra
+                hs.append(("Connection", ", ".join(k for k, _ in extra)))
+                res.count("cached_responses_nominating_cache_fields")
         resp = Resp(200, hs, length=50)
         if c["interim"]:
             resp.interim = [("HTTP/1.1 103 Early Hints\r\n" + "".join(f"{k}: {v}\r\n" for k, v in c["i_headers"]) + "Link: </c04.css>; rel=preload\r\n\r\n").encode("latin1")]
